@@ -13,11 +13,11 @@ sys.path.insert(0, %(root)r)
 import measured.systems  # noqa
 import measured
 from measured.conversions import ConversionNotFound
-from measured.si import Meter, Second, Gram, Joule, Newton
-ns = {"Meter": Meter, "Second": Second, "Gram": Gram, "Joule": Joule, "Newton": Newton}
+from measured.si import Meter, Second, Gram, Joule, Newton, Hecto, Mega, Giga, Deci, Centi, Micro
+ns = {"Meter": Meter, "Second": Second, "Gram": Gram, "Joule": Joule, "Newton": Newton, "Hecto": Hecto, "Mega": Mega, "Giga": Giga, "Deci": Deci, "Centi": Centi, "Micro": Micro}
 dims = {"L": measured.Length, "T": measured.Time, "E": measured.Energy, "V": measured.Volume}
 def run(script, queries_enabled):
-    out = None
+    out = []
     for step in script:
         kind = step[0]
         if kind == "define":
@@ -33,7 +33,7 @@ def run(script, queries_enabled):
             except Exception as e:
                 res = "raise:" + type(e).__name__
             if step[-1] == "final":
-                out = res
+                out.append(res)
         elif kind == "compare" and queries_enabled:
             try:
                 (1 * eval(step[1], ns)) == (1 * eval(step[2], ns))
@@ -46,7 +46,13 @@ print(json.dumps(run(script, sys.argv[2] == "1")))
 '''
 
 
-def gen_script(rng, tag):
+# shipped prefixed units whose combined prefixes (10**4, 10**8, 10**-4, 10**-8) are not registered at import: whichever query builds such a
+# prefix first (by a product, a power or a root) decides which object is interned
+PREFIXED = [("(Mega*Meter)*(Hecto*Meter)", "Meter**2"), ("(Giga*Meter)*(Deci*Meter)", "Meter**2"), ("(Hecto*Meter)**2", "Meter**2"),
+            ("(Micro*Meter)*(Centi*Meter)", "Meter**2"), ("(Centi*Meter)**2", "Meter**2"), ("(Hecto*Meter)**2", "(Mega*Meter)*(Hecto*Meter)")]
+
+
+def gen_script(rng, tag, prefixed=False):
     names = ["%s_a" % tag, "%s_b" % tag, "%s_c" % tag, "%s_e" % tag]
     script = [("define", names[0], "L"), ("define", names[1], "L"), ("define", names[2], "T"), ("define", names[3], "E")]
     decls = [("equate", names[0], rng.choice([2, 3.5, 12]), "Meter"), ("equate", names[1], rng.choice([7, 0.25]), names[0]),
@@ -60,11 +66,18 @@ def gen_script(rng, tag):
     pairs = [(v[0], v[2]), (v[2], v[0]), (v[0], v[1]), (v[1], v[0]), (names[0], "Meter"), (names[1], "Meter"), ("Meter", names[1]), ("%s / %s" % (names[1], names[2]), "Meter / Second"), (names[3], "Joule"),
              ("%s**2" % names[0], "%s**2" % names[1]), (names[3], "%s * Newton" % names[0])]
     steps = list(decls)
+    if prefixed:
+        pairs = PREFIXED
     # queries (successful and failing) interleaved at random positions, before and after the declarations they need
     for _ in range(rng.choice([3, 5, 7])):
         a, b = rng.choice(pairs)
         pos = rng.randrange(len(steps) + 1)
         steps.insert(pos, ("query", rng.choice([1, 2.5]), a, b, "mid") if rng.random() < 0.7 else ("compare", a, b))
+    if prefixed:
+        # the final answer is a panel: every prefixed pair (powers first, then products), with a magnitude whose float image is inexact
+        mag = rng.choice([12345678901234567, 98765432109876543])
+        panel = sorted(PREFIXED, key=lambda p: ("**" not in p[0], p))
+        return script + steps + [("query", mag, a, b, "final") for a, b in panel]
     fa, fb = rng.choice(pairs)
     return script + steps + [("query", 3, fa, fb, "final")]
 
@@ -83,12 +96,12 @@ def run(tier, seed):
     n = 12 if tier == "quick" else 600
     failures, samples, distinct = [], [], set()
     for i in range(n):
-        script = gen_script(rng, "c08s%dn%d" % (seed, i))
+        script = gen_script(rng, "c08s%dn%d" % (seed, i), prefixed=(i % 2 == 1))
         a = run_script(script, True)
         b = run_script(script, False)
         again = run_script(script + [script[-1]], True)
         distinct.add(json.dumps(script[7:]))
-        if a != b or again != a:
+        if a != b or not (isinstance(again, list) and again[:-1] == a and again[-1:] == a[-1:]):
             key = "history-dependent" if a != b else "repeat-differs"
             if sum(1 for f in failures if f["key"] == key) < 2:
                 failures.append({"key": key, "desc": "final query gives %s after the interleaved history but %s in a fresh process with the same declarations (repeat: %s)" % (a, b, again),
@@ -96,7 +109,7 @@ def run(tier, seed):
         if len(samples) < 3:
             samples.append([list(s) for s in script[7:]])
     return {"evaluations": 3 * n, "distinct": len(distinct), "failures": failures, "samples": samples,
-            "rule": "random scripts: 4 fresh units, 4 declarations in random order, 2-5 queries/comparisons interleaved at random positions (before and after the "
+            "rule": "random scripts (every second one querying shipped prefixed area units whose combined prefixes are not registered at import): 4 fresh units, 4 declarations in random order, 2-5 queries/comparisons interleaved at random positions (before and after the "
                     "declarations they need), one final query; each script runs in its own process with and without the intermediate queries, and with the final "
                     "query repeated; distinct = distinct scripts", "bound": "%d scripts x 3 processes" % n}
 
